@@ -212,9 +212,14 @@ def classify(doc):
         # the format document does not describe creation_metadata at all;
         # tdda itself only ever writes an object there
         return 'gray', 'metadata-not-object'
+    if 'fields' not in doc:
+        # the format document calls both top-level keys optional, but tdda's
+        # own pinned test suite lists {} among the "malformed" dictionaries
+        # that must be rejected: the two sources disagree -> unspecified
+        return 'gray', 'no-fields-key'
     fields = doc.get('fields')
     if fields is None:
-        return 'doc', None      # both top-level keys are optional; null = none
+        return 'doc', None      # "fields": null = no field constraints
     if not isinstance(fields, dict):
         return 'gray', 'fields-not-object'
     for name, fc in fields.items():
